@@ -37,6 +37,11 @@ T = {
          "A deviation is a cut between two reads; with read sizes capped by the requested size, the set of all segmentations also realises every internal chunk size. Every schedule is executed on the real input stream + tokenizer + parser and must give the same canonical tree and the same (code, line, col) error list as the undisturbed run.",
          "Python's codecs are trusted for decoding; inputs whose bytes spell a BOM that is not meant as one are excluded; placement of stream-level invalid-codepoint reports is a listed known finding",
          "6/C05"),
+ "C06": ("exploration",
+         "exhaustive enumeration of a complete finite configuration space (5^5 assignments of the five *_encoding arguments over {absent, two valid labels, invalid, UTF-16} x 5 BOM variants x 13 body variants = 203125 real parses) against a reference precedence function, plus bounded-exhaustive enumeration of the prescan's input language (all byte words <=4 over 25 macro-letters x 4 terminations, from 8 seed prefixes) against ref/prescan.py written from the standard",
+         "Every configuration is parsed by the real HTMLParser; documentEncoding must equal the documented precedence (BOM > override > transport > prescan meta > parent unless UTF-16 > likely > default > windows-1252; UTF-16 in meta means UTF-8; late meta while tentative restarts) and the tree must equal html5lib's parse of the bytes decoded by Python's codec for the reported encoding. The prescan is driven at its narrowest seam (detectEncodingMeta) on every short byte word.",
+         "webencodings' label table and Python's codecs are trusted; six modelled prescan deviations and the dropped truncated final byte sequence are listed known findings; chardet is absent",
+         "6/C06"),
  "C11": ("model_checking",
          "explicit-state BFS over markup-token words, key = (suspended parser state, digest of the complete final tree); every explored word is built with etree (full tree / root element / fragment) and dom (document / documentElement / fragment), namespacing on and off, and walked by the real walkers from each start node; oracle = lint filter + own well-formedness checker + tree rebuilt from the stream == direct traversal + etree stream == dom stream",
          "Walkers are pure traversals, so coverage is counted in distinct complete trees: all trees reachable by words of eight themed alphabets up to the stated depth (document mode and one fragment container per theme) are walked 12 ways each. The rebuilt-tree oracle is independent of html5lib (direct traversal of minidom / ElementTree objects).",
